@@ -17,7 +17,12 @@ class B(A): ...
 class C: ...
 
 
-VALUES = [A(), B(), C(), 1, True, "a", None, [A()], [1], (1, "a"), 2.5, 2, "b", A, list[A], {"k": A()}, {"k": 1}, {}]
+NodeA = type("Node", (), {})
+NodeB = type("Node", (), {})
+Node0 = type("Node0", (), {})
+
+
+VALUES = [NodeA(), NodeB(), Node0(), A(), B(), C(), 1, True, "a", None, [A()], [1], (1, "a"), 2.5, 2, "b", A, list[A], {"k": A()}, {"k": 1}, {}]
 
 GLOBALS_A = {"Thing": A, "typing": typing, "Annotated": Annotated}
 GLOBALS_C = {"Thing": C, "typing": typing}
@@ -61,6 +66,12 @@ GROUPS = {
     "literal_interleaved_types": [Literal[1, 2, "a"], Literal[1, "a", 2], Literal[2, 1, "a"]],
     "string_inside_dict_generic": [dict[str, A], dict[str, "Thing"], "dict[str, Thing]"],
     "string_inside_list_generic": [list[A], list["Thing"], "list[Thing]"],
+    "union_of_same_named_classes": [NodeA | NodeB, NodeB | NodeA, typing.Union[NodeA, NodeB], (NodeA, NodeB)],
+    "union_of_same_named_classes_with_a_literal": [NodeA | Node0 | NodeB | Literal["a"], Node0 | NodeA | Literal["a"] | NodeB, NodeB | NodeA | Node0 | Literal["a"], Literal["a"] | NodeA | NodeB | Node0],
+    "annotated_generic": [Annotated[list[A], "meta"], list[A]],
+    "annotated_literal": [Annotated[Literal[1, 2], "meta"], Literal[1, 2]],
+    "annotated_typing_union": [Annotated[typing.Union[A, int], "meta"], typing.Union[A, int]],
+    "annotated_optional": [Annotated[Optional[A], "meta"], Optional[A]],
     # ovld's own type objects inside the standard spellings
     "optional_of_protocol_type": [Optional[HasMethod["upper"]], HasMethod["upper"] | None, None | HasMethod["upper"], typing.Union[HasMethod["upper"], None]],
     "optional_of_value_type": [Optional[Equals[1]], Equals[1] | None, None | Equals[1], Optional[Literal[1]]],
